@@ -150,6 +150,10 @@ def check(case):
     except Exception as e:
         if exc_origin(e)[0] == "harness":
             raise
+        if singular or noroot:
+            # a singular / unsolvable system: any exception is a report of failure (e.g. RuntimeError from the sparse
+            # factorisation); the property only forbids presenting a non-solution as a success
+            return [], dict(nontrivial=nontrivial, labels=labels + ["raised_other_failure:" + type(e).__name__])
         return [V("solver_raised", "{} raised {!r} ({})".format(solver, e, {k: case[k] for k in ("fam", "shape", "dtype", "tol")}), sig + exc_sig(e), **attrs)], dict(nontrivial=nontrivial, labels=labels)
     viols = []
     x = np.asarray(x)
